@@ -283,10 +283,10 @@ def evaluator_plan(ctx):
             for name in ("submit-scripted", "apply-scripted"):
                 plan.append((name, n, rng.choice(lfs(n)), order, 1))
     # real thread pools, later jobs finish first
-    for n in ctx.scale((0, 1, 2, 3, 5, 8), (0, 1, 2, 3, 4, 5, 6, 8, 11)):
-        for lf in ctx.scale([None, 1, 2, n, n + 1], lfs(n)):
+    for n in ctx.scale((0, 1, 2, 4, 7), (0, 1, 2, 3, 4, 5, 6, 8, 11)):
+        for lf in ctx.scale([None, 1, 2, n + 1], lfs(n)):
             for name in ("map-serial", "map-executor", "pool-threadpool", "submit-threads", "apply-threads"):
-                for nthreads in ((2, n + 1) if n > 2 and name != "map-serial" else (3,)):
+                for nthreads in ((2, n + 1) if n > 2 and name != "map-serial" and (ctx.thorough or lf in (None, 2)) else (n + 1 if n > 2 else 3,)):
                     order = list(reversed(range(n)))
                     if rng.random() < 0.3:
                         rng.shuffle(order)
@@ -849,17 +849,24 @@ def part_experiment(ctx, pools):
 # =====================================================================================================
 def run(ctx):
     pools = Pools()
+    times = {"coq_build_and_audit_s": round(time.time() - ctx.t0, 1)}
+
+    def timed(name, fn, *a):
+        t = time.time()
+        fn(*a)
+        times[name] = round(time.time() - t, 1)
     try:
         # fork the process pools' workers now, before this process has started any thread
         pools.multiprocessing()
         pools.processpool().evaluate_all([JB.DelayJob(0)])
-        part_chunks(ctx)
-        part_evaluators(ctx, pools)
-        part_pairing(ctx, pools)
-        part_experiment(ctx, pools)
+        timed("chunks_s", part_chunks, ctx)
+        timed("evaluators_s", part_evaluators, ctx, pools)
+        timed("pairing_s", part_pairing, ctx, pools)
+        timed("experiment_s", part_experiment, ctx, pools)
     finally:
         pools.close()
-    part_mpi(ctx)
+    timed("mpi_s", part_mpi, ctx)
+    ctx.coverage["phase_seconds"] = times
     ctx.rule = ("_chunks: every (n, length) pair on a grid incl. n<=0 plus random; evaluators: every completion permutation of <=3 (quick) / <=4 (thorough) jobs on a scripted "
                 "futures pool x every log_frequency in {None,1,2,3,n,n+1,0,-1}, random permutations beyond, real thread/process pools with later-jobs-first delays, batch sizes "
                 "0,1,<workers,>workers; MPIPool on the simulated mpi4py: random schedules (1-6 workers, 1-3 consecutive batches, both branches, eager and scheduled sends) and "
